@@ -275,7 +275,7 @@ KNOWN_CASES = []
 
 
 def run(ctx, rep):
-    n = ctx.n(500, 40000)
+    n = ctx.n(500, 6000)
     cases = [{"seed": f"C02:{ctx.seed}:{i}"} for i in range(n)] + [{"seed": f"C02f:{ctx.seed}:{i}", "frag": True} for i in range(n // 4)]
     cases += [{"src": f'print!("{frag.SENTINEL}")\n' + s + "\n", "sig": sig} for sig, s in KNOWN_CASES]
     for r in common.pmap(lambda c: run_one(ctx, c), cases):
